@@ -4,6 +4,7 @@
 import CorgiProofs.EngineTop
 import CorgiProofs.PathSum
 import CorgiProofs.Reachable
+import CorgiProofs.ShapeCheckSound
 
 set_option linter.unusedSectionVars false
 
@@ -126,8 +127,23 @@ theorem C10_pass_clean_reachable {σ σ' : State S} (hr : Reachable σ) (v : Str
     (∀ i, σ'.cnt.getD i 0 = 0) ∧ (∀ i, σ'.delta.getD i none = none) :=
   (good_backward hr.good (get_valid hr.good.roots hg) seed hok).heap.clean
 
+/-- **Additive accumulation of the stored closures' gradients.**  In any good state that passes the shape
+    check (`ShapeOK`; see C01), any list of passes (roots and seeds of the roots' shapes) leaves on any leaf `ℓ`
+    its starting gradient plus the sum of the path sums of the individual passes, with `Λ` = the stored
+    closures' own answers — no assumption about the operations — and ends clean. -/
+theorem C10_additive_stored_closures [AddLaws S] [MulLaws S] {σ : State S} (g : Good σ) (hs : ShapeOK σ)
+    (ℓ j : Nat) (hleaf : σ.graph.kids ℓ = []) (keep : Bool) (ps : List (Nat × Tensor S))
+    (hroots : ∀ p ∈ ps, p.1 < σ.nodes.size) (hshape : ∀ p ∈ ps, Shaped (σ.dimsOf p.1) p.2)
+    (hg : ∀ t, σ.estate.grad ℓ = some t → Shaped (σ.dimsOf ℓ) t) (e : EState S)
+    (hrun : runSeeded σ.graph (fun _ => keep) (σ.nodes.size + 1) ps σ.estate = .ok e) :
+    gradVal ℓ j e = gradVal ℓ j σ.estate + passSum (σ.sem (fun _ => keep) g.heap hs) ℓ j ps ∧ e.Clean :=
+  C10_additive (σ.sem (fun _ => keep) g.heap hs) (graph_wf σ g.heap) (graph_lawful σ g.heap) ℓ j (σ.nodes.size + 1)
+    (fun n s _ _ _ => by simp [stores, hleaf]) ps (fun p hp => by have := hroots p hp; omega) hshape
+    σ.estate e (estate_clean σ g.heap) hg hrun
+
 end Corgi
 
+#print axioms Corgi.C10_additive_stored_closures
 #print axioms Corgi.C10_additive
 #print axioms Corgi.C10_clean
 #print axioms Corgi.C10_clean_history
